@@ -740,7 +740,7 @@ class PX:
                 idx = self.read_local(st, fr, e["local"])
                 path = path + (("idx", idx),)
             elif k == "constindex":
-                path = path + (("cidx", e["offset"], e["from_end"], e["min_length"]),)
+                path = path + (("cidx", e["offset"], e["from_end"], (e["min_length"] if e["from_end"] else 0)),)
             elif k == "subslice":
                 path = path + (("subslice", e["from"], e["to"], e["from_end"]),)
             else:
@@ -1055,6 +1055,20 @@ class PX:
             return const(len(ref[1]))
         if ref[0] == "refconst" and ref[1][0] in ("bytes", "str"):
             return const(len(ref[1][1]))
+        # the same canonical length term the sequence models use (len of the sequence value the reference denotes)
+        v = ref
+        for _ in range(3):
+            if isinstance(v, tuple) and v and v[0] == "ref":
+                v = self._read(st, v[1], v[2])
+            elif isinstance(v, tuple) and v and v[0] == "refconst":
+                v = v[1]
+            else:
+                break
+        if isinstance(v, tuple) and v and v[0] == "slice_of":
+            v = v[1]
+        if v is not ref and isinstance(v, tuple) and v:
+            from .models import len_term
+            return len_term(v)
         return ("len", ref)
 
     def discr_of(self, st, v, adt):
